@@ -27,7 +27,7 @@ COMPONENTS = {"real": ["pyjelly frame iterator, Decoder living across frames, fl
                        "shared Stream, Graphs/DatasetsFrameFlow"],
               "stub": ["reframe fault (simkit.wire row slicing: rows are never re-encoded)", "oracle: simkit.refdec"]}
 ASSUMPTIONS = ["frames produced for empty inputs are not judged", "rdflib sinks compared as sets"]
-PROBES = ["frames_without_statements", "first_input_empty", "grouped_write_with_namespaces", "big_group_runs", "grouped_write_flat_logical", "reframe_runs", "grouped_write_runs", "empty_frames_inserted", "metadata_frames", "leading_empty_frame",
+PROBES = ["frames_without_statements", "retained_sinks_compared", "first_input_empty", "grouped_write_with_namespaces", "big_group_runs", "grouped_write_flat_logical", "reframe_runs", "grouped_write_runs", "empty_frames_inserted", "metadata_frames", "leading_empty_frame",
           "single_row_frames", "rdflib_runs", "empty_inputs", "physical_GRAPHS"]
 SHRINK_LISTS = ["ops", "items"]
 
@@ -193,6 +193,26 @@ def reframe_side(plan, sim):
                 v.append({"clause": "C07.frame_metadata", "sig": {},
                           "msg": f"after sink {j} the metadata variable holds {md!r}, frame carries {want_md!r}"})
                 break
+    # a consumer that keeps the sinks and reads them after the stream has ended sees what the streaming one saw:
+    # a sink that was handed out belongs to its frame, nothing is added to it afterwards
+    if not v:
+        try:
+            kept, distinct = nodes.parse_grouped_retained(integration, io.BytesIO(new))
+        except Exception as e:  # noqa: BLE001
+            return v + [{"clause": "C07.grouped_raised", "sig": {"exc": type(e).__name__, "consumer": "retaining"},
+                         "msg": f"list(parse_jelly_grouped(...)) raised {type(e).__name__}: {e}"}], None
+        sim.count("retained_sinks_compared")
+        now = [(sts, nss) for sts, nss in kept]
+        then = [(sts, nss) for sts, nss, _ in sinks]
+        if not ordered:
+            now = [(set(a), b) for a, b in now]
+            then = [(set(a), b) for a, b in then]
+        if now != then or distinct != len(kept):
+            j = next((i for i, (a, b) in enumerate(zip(now, then)) if a != b), None)
+            v.append({"clause": "C07.sink_content", "sig": {"consumer": "retaining"},
+                      "msg": f"{len(kept)} sinks kept until the end of the stream ({distinct} distinct objects): sink "
+                             f"{j} held {then[j] if j is not None else None!r} when it was yielded and holds "
+                             f"{now[j] if j is not None else None!r} afterwards"})
     nst = sum(1 for fi in ref.frames_items if fi)
     key = (tuple(rows), tuple(len(f.rows) for f in frames)) if nst >= 2 else None
     return v, key
